@@ -62,12 +62,13 @@ Definition no_drop_wf (f : fn_def) : bool :=
 
 (* Drop: the value if the OnceCell is set, the seed otherwise; exactly one of them *)
 Definition drop_wf (f : fn_def) : bool :=
-  existsb (fun e => match e with
-                    | EMatch (EMethod (EField (EPath ["self"]) "once") "get_mut" [])
-                        [(PTupleStruct ["Some"] [PWild], None, ECall (EPath ["ManuallyDrop"; "drop"]) [ERef (EField (EPath ["data"]) "init")]);
-                         (PIdent "None" None, None, ECall (EPath ["ManuallyDrop"; "drop"]) [ERef (EField (EPath ["data"]) "uninit")])] => true
-                    | _ => false
-                    end) (flat_map (subexprs depth_fuel) (fn_body f)).
+  match fn_body f with
+  | [EBlock [ELetS (PIdent "data" None) (Some (EMethod (EField (EPath ["self"]) "data") "get_mut" [])) None;
+             EMatch (EMethod (EField (EPath ["self"]) "once") "get_mut" [])
+               [(PTupleStruct ["Some"] [PWild], None, ECall (EPath ["ManuallyDrop"; "drop"]) [ERef (EField (EPath ["data"]) "init")]);
+                (PIdent "None" None, None, ECall (EPath ["ManuallyDrop"; "drop"]) [ERef (EField (EPath ["data"]) "uninit")])]]] => true
+  | _ => false
+  end.
 
 Lemma cell_as_modelled :
   get_wf OnceInitCell_get = true /\ dispatch_wf OnceInitCell_get_or_try_init = true /\
